@@ -1,6 +1,6 @@
 """C17 -- fences and fill patterns: corruption experiments on the four low-level allocators replayed against Debug.lowlevel_cycle."""
 import subprocess
-from vlib import build, runner
+from vlib import proc, build, runner
 from checks import poolrun
 
 
@@ -84,7 +84,7 @@ def run(ctx):
                 t = l.split(); size = int(t[2]); n = int(t[4])
                 return all(0 <= int(t[5 + 2 * i]) < size for i in range(n))
             use = [l for l in lines if inb(l)]
-        out = subprocess.run([exe], input='\n'.join(use) + '\n', stdout=subprocess.PIPE, stderr=subprocess.PIPE, text=True)
+        out = proc.run([exe], input='\n'.join(use) + '\n', timeout=600)
         if out.returncode != 0:
             ctx.tie_broken.append('low-level harness exit %d in %s' % (out.returncode, c))
         n = 0
@@ -115,6 +115,13 @@ def run(ctx):
         bad = [l for l in r['log'].split('\n') if l.startswith('nofill') or l.startswith('nofreedfill')]
         if bad and len(ctx.violations) < 3:
             ctx.violation('%s:%s/%s' % (kind, tgt, c), 'C17 fails on the implementation: fill pattern missing: ' + bad[0],
+                          dict(config=c, script=r['case']['script'].split('\n')))
+        hit = [l for l in r['log'].split('\n') if l.startswith('corrupt')]
+        if hit and len(ctx.violations) < 3:
+            ctx.violation('%s:%s/%s/neighbour' % (kind, tgt, c), 'C17 fails on the implementation: releasing memory (freed-memory fill, list links) wrote into a neighbouring live allocation: ' + hit[0],
+                          dict(config=c, script=r['case']['script'].split('\n')))
+        if r['rc'] != 0 and len(ctx.violations) < 3:
+            ctx.violation('%s:%s/%s/stopped' % (kind, tgt, c), 'C17 fails on the implementation: the run was stopped (exit status %d) after: %s' % (r['rc'], r['log'].strip().split('\n')[-1][:100]),
                           dict(config=c, script=r['case']['script'].split('\n')))
     ctx.tie_broken = ctx.tie_broken[:6]
     ctx.cov.update(dict(
